@@ -210,6 +210,9 @@ func buildPlan(rng *rand.Rand, c int, hs, tk string, key keyInfo, kinds []kv, nt
 		return out
 	}
 	dataSize := func() int {
+		if ov != nil && ov.DataSize > 0 {
+			return ov.DataSize
+		}
 		if craft == "full" {
 			return 0x3FFF
 		}
